@@ -241,6 +241,11 @@ type Engine struct {
 	// that was not allocated during the run (package-level variables, pointees
 	// of arguments): the footprint of a function on state that outlives it.
 	TrackWrites bool
+	// LoadHook may supply the value of a load (used for storage whose content
+	// is changed behind the interpreter's back by uninterpreted callees);
+	// StoreHook observes every store into a cell.
+	LoadHook  func(st *State, p *Ptr) (Val, bool)
+	StoreHook func(st *State, p *Ptr, v Val)
 	// PruneByFacts drops a branch whose condition is refuted, in integer linear
 	// arithmetic, by the conditions already on the path (n < 40 refutes n >= 128).
 	PruneByFacts bool
@@ -517,6 +522,11 @@ func updatePath(v Val, path []int, nv Val) (Val, bool) {
 }
 
 func (e *Engine) load(st *State, p *Ptr, t types.Type) (Val, string) {
+	if e.LoadHook != nil {
+		if v, ok := e.LoadHook(st, p); ok {
+			return v, ""
+		}
+	}
 	if p.Cell == nil {
 		if p.Base != nil && p.SymIdx != nil {
 			return e.elemOf(p.Base, p.SymIdx, t), ""
@@ -638,6 +648,9 @@ func (e *Engine) store(st *State, p *Ptr, v Val) string {
 	nv, ok := updatePath(e.cellVal(st, p.Cell), p.Path, v)
 	if !ok {
 		return "store: bad path " + p.Key()
+	}
+	if e.StoreHook != nil {
+		e.StoreHook(st, p, v)
 	}
 	if e.TrackWrites && !p.Cell.Alloc && !e.inInit {
 		// a write to storage that was not allocated during this run: a
